@@ -393,6 +393,9 @@ class Env:
         return h
 
     def on_drop(self, it, v):
+        if v.kind == 'Receiver':
+            self.receiver_dropped = True
+            return
         if v.kind == 'BufWriter':
             h = self.handles[v.data]
             if h['buf'] and not h.get('poisoned'):
@@ -1054,6 +1057,9 @@ def m_pool_join(it, argv, text):
 @emodel('Sender::send')
 def m_send(it, argv, text):
     env = env_of(it)
+    if getattr(env, 'receiver_dropped', False):
+        # mpsc contract: send fails once the receiver has been dropped
+        return err(OpaqueV('SendError'))
     env.queue.append(argv[1])
     return ok(UNIT)
 
@@ -1076,19 +1082,24 @@ def m_try_recv(it, argv, text):
         kind, k = opts[d]
         if kind == 'deliver':
             env.stuttered = False
+            env.idle_empties = 0
             msg = env.queue.pop(0)
             env.sched_trace.append(('recv',))
             return ok(msg)
         if kind == 'run':
             env.stuttered = False
+            env.idle_empties = 0
             _run_task(it, env, k)
             continue
         # empty
         env.sched_trace.append(('empty',))
         if not env.pending and not env.queue:
-            if env.stuttered:
+            # the run loop and the drop loop may each observe one idle Empty before exiting; more than that is a
+            # loop that polls forever (done != total with nothing in flight)
+            env.idle_empties = getattr(env, 'idle_empties', 0) + 1
+            if env.idle_empties >= 3:
                 raise Violation("hang: coordinator keeps polling an empty channel with no task in flight",
-                                {'trace': list(env.sched_trace)})
+                                {'op': 'sched', 'trace': list(env.sched_trace)})
         env.stuttered = True
         return EMPTY
 
@@ -1179,3 +1190,28 @@ def m_read(it, argv, text):
     it.store(dst.addr, VecV(base.e[:dst.start] + tuple(n[2][h['pos']:h['pos'] + got]) + base.e[dst.start + got:]))
     h['pos'] += got
     return ok(got)
+
+
+@emodel('Error::kind')
+def m_io_error_kind(it, argv, text):
+    e = it.deref_all(argv[0])
+    from .interp import BUILTIN_ENUMS
+    ks = BUILTIN_ENUMS['ErrorKind']
+    k = e.data if isinstance(e, OpaqueV) and e.data in ks else 'Other'
+    return EnumV('ErrorKind', k, ks.index(k), ())
+
+
+@emodel('Error::new', 'Error::other')
+def m_io_error_new(it, argv, text):
+    a = argv[0]
+    if isinstance(a, EnumV) and a.ename == 'ErrorKind':
+        return io_error(a.vname)
+    return io_error('Other')
+
+
+@emodel('<Error as From>::from')
+def m_io_error_from(it, argv, text):
+    a = argv[0]
+    if isinstance(a, EnumV) and a.ename == 'ErrorKind':
+        return io_error(a.vname)
+    return a
